@@ -26,6 +26,21 @@ class Stable (R : VM ν → VM ν → Prop) : Prop extends PreRel R where
   stack : ∀ s st cs, R s { s with stack := st, csModuleID := cs }
   modules : ∀ s m, R s { s with modules := m }
 
+/-- the weaker requirement that suffices for everything that never overwrites a heap cell: `R` tolerates allocation
+(a cell appended to the heap), call stack / current module and module table changes.  Relations that do look at
+existing heap cells (e.g. "method cells are never altered") are `Stable0` but not `Stable`. -/
+class Stable0 (R : VM ν → VM ν → Prop) : Prop extends PreRel R where
+  alloc : ∀ (s : VM ν) (c : Cell ν), R s { s with heap := s.heap.push c }
+  stack : ∀ s st cs, R s { s with stack := st, csModuleID := cs }
+  modules : ∀ s m, R s { s with modules := m }
+
+instance (R : VM ν → VM ν → Prop) [h : Stable R] : Stable0 R where
+  refl := h.refl
+  trans := h.trans
+  alloc s c := h.heap s _
+  stack := h.stack
+  modules := h.modules
+
 structure Pres (R : VM ν → VM ν → Prop) {α} (m : M ν α) : Prop where
   run : ∀ s, R s (m s).2
 
@@ -135,15 +150,11 @@ macro "pres_tac" : tactic => `(tactic| repeat' (first | assumption | pres_prim |
 /-! ## leaves: functions outside the mutual block -/
 
 section leaves
-variable {R : VM ν → VM ν → Prop} [Stable R] {α β : Type}
+variable {R : VM ν → VM ν → Prop} [Stable0 R] {α β : Type}
 
-theorem Pres.alloc (c : Cell ν) : Pres R (alloc c) := ⟨fun s => Stable.heap s _⟩
+theorem Pres.alloc (c : Cell ν) : Pres R (alloc c) := ⟨fun s => Stable0.alloc s c⟩
 theorem Pres.getCell (a : Addr) : Pres R (getCell (ν := ν) a) := by
   constructor; intro s; unfold Model.getCell; split <;> exact PreRel.refl _
-theorem Pres.setCell (a : Addr) (c : Cell ν) : Pres R (setCell a c) := by
-  constructor; intro s; unfold Model.setCell; split
-  · exact Stable.heap s _
-  · exact PreRel.refl _
 theorem Pres.newNull : Pres R (newNull (ν := ν)) := Pres.alloc _
 theorem Pres.newBool (b : Bool) : Pres R (newBool (ν := ν) b) := Pres.alloc _
 theorem Pres.newNum (x : ν) : Pres R (newNum x) := Pres.alloc _
@@ -157,11 +168,11 @@ theorem Pres.setTopFrame (f : Frame → Frame) : Pres R (setTopFrame (ν := ν) 
   intro s
   cases h : s.stack with
   | nil => simp only; exact PreRel.refl _
-  | cons fr rest => exact Stable.stack s (f fr :: rest) s.csModuleID
+  | cons fr rest => exact Stable0.stack s (f fr :: rest) s.csModuleID
 theorem Pres.popFrame : Pres R (popFrame (ν := ν)) := by
   constructor; intro s; unfold Model.popFrame; split
   · exact PreRel.refl _
-  · exact Stable.stack s _ _
+  · exact Stable0.stack s _ _
 theorem Pres.unwindTo (d : Nat) : Pres R (unwindTo (ν := ν) d) := by
   unfold Model.unwindTo
   apply Pres.modifyVM
@@ -169,7 +180,7 @@ theorem Pres.unwindTo (d : Nat) : Pres R (unwindTo (ν := ν) d) := by
   simp only
   split
   · exact PreRel.refl _
-  · exact Stable.stack s _ _
+  · exact Stable0.stack s _ _
 theorem Pres.currentModule : Pres R (currentModule (ν := ν)) := by
   constructor; intro s; unfold Model.currentModule; split
   · exact PreRel.refl _
@@ -179,10 +190,10 @@ theorem Pres.addExport (i : Nat) (name : String) (v : Addr) : Pres R (addExport 
   · exact PreRel.refl _
   · split
     · exact PreRel.refl _
-    · exact Stable.modules s _
+    · exact Stable0.modules s _
 
 macro_rules | `(tactic| pres_prim) => `(tactic| with_reducible (first
-  | apply Pres.alloc | apply Pres.getCell | apply Pres.setCell | apply Pres.newNull | apply Pres.newBool
+  | apply Pres.alloc | apply Pres.getCell | apply Pres.newNull | apply Pres.newBool
   | apply Pres.newNum | apply Pres.newStr | apply Pres.topFrame | apply Pres.stackDepth | apply Pres.currentScope
   | apply Pres.setTopFrame | apply Pres.popFrame | apply Pres.unwindTo | apply Pres.currentModule
   | apply Pres.addExport))
@@ -241,8 +252,6 @@ macro_rules | `(tactic| pres_prim) => `(tactic| with_reducible (first
 
 theorem Pres.getProperty (n : Nat) (a : Addr) (name : String) : Pres R (getProperty (ν := ν) n a name) := by
   unfold Model.getProperty; pres_tac
-theorem Pres.setProperty (a : Addr) (name : String) (v : Addr) : Pres R (setProperty (ν := ν) a name v) := by
-  unfold Model.setProperty; pres_tac
 
 theorem Pres.goContains (n : Nat) (x : Addr) : ∀ l : List Addr, Pres R (builtinMethod.goContains (ν := ν) n x l)
   | [] => by unfold builtinMethod.goContains; exact Pres.pure _
@@ -276,27 +285,85 @@ theorem Pres.goArith (op : ν → ν → ν) (cz : Bool) : ∀ (l : List Addr) (
     exact ih _
 
 macro_rules | `(tactic| pres_prim) => `(tactic| with_reducible (first
-  | apply Pres.getProperty | apply Pres.setProperty | apply Pres.goContains | apply Pres.goFind | apply Pres.goGet
+  | apply Pres.getProperty | apply Pres.goContains | apply Pres.goFind | apply Pres.goGet
   | apply Pres.goArith))
+
+
+end leaves
+
+/-! ### the functions that overwrite heap cells — for relations that do not look at the heap (`Stable`) -/
+
+section strongLeaves
+variable {R : VM ν → VM ν → Prop} [Stable R] {α β : Type}
+
+theorem Pres.setCell (a : Addr) (c : Cell ν) : Pres R (setCell a c) := by
+  constructor; intro s; unfold Model.setCell; split
+  · exact Stable.heap s _
+  · exact PreRel.refl _
+
+macro_rules | `(tactic| pres_prim) => `(tactic| with_reducible (apply Pres.setCell))
+
+theorem Pres.setProperty (a : Addr) (name : String) (v : Addr) : Pres R (setProperty (ν := ν) a name v) := by
+  unfold Model.setProperty; pres_tac
+
+macro_rules | `(tactic| pres_prim) => `(tactic| with_reducible (apply Pres.setProperty))
 
 theorem Pres.builtinMethod (n : Nat) (a : Addr) (name : String) (vals : List Addr) :
     Pres R (builtinMethod (ν := ν) n a name vals) := by
   unfold Model.builtinMethod
   pres_tac
 
-end leaves
+theorem Pres.reduceLHS (iv : Nat × Addr × String × Int) (v : Addr) : Pres R (reduceLHS (ν := ν) iv v) := by
+  obtain ⟨k, r, nm, i⟩ := iv
+  simp only [Model.reduceLHS]
+  pres_tac
+
+theorem Pres.evalCtorDecl : ∀ (n : Nat) (st : Stmt), Pres R (evalCtorDecl (ν := ν) n st)
+  | 0, st => Pres.outOfFuel
+  | n+1, st => by cases st <;> rw [Model.evalCtorDecl] <;> pres_tac <;> contradiction
+
+end strongLeaves
 
 
 /-! ## the mutual block -/
 
 /-- what `R` has to allow besides `Stable`: output, frame push (creates the module's scope), declaration,
 assignment, and the scope bracket -/
+class ScopePrims0 (R : VM ν → VM ν → Prop) : Prop extends Stable0 R where
+  emit : ∀ l, Pres R (emit (ν := ν) l)
+  pushFrame : ∀ fr, Pres R (pushFrame (ν := ν) fr)
+  declareElement : ∀ name v c ext, Pres R (declareElement (ν := ν) name v c ext)
+  setElement : ∀ name v, Pres R (setElement (ν := ν) name v)
+  withScope : ∀ {α : Type} (body : M ν α), Pres R body → Pres R (withScope body)
+  /-- the four places where an existing heap cell is overwritten (`setCell`) -/
+  setProperty : ∀ a name v, Pres R (setProperty (ν := ν) a name v)
+  builtinMethod : ∀ n a name vals, Pres R (builtinMethod (ν := ν) n a name vals)
+  reduceLHS : ∀ iv v, Pres R (reduceLHS (ν := ν) iv v)
+  evalCtorDecl : ∀ n st, Pres R (evalCtorDecl (ν := ν) n st)
+
+/-- the same for relations that do not look at heap cells at all: the four `setCell` sites come for free -/
 class ScopePrims (R : VM ν → VM ν → Prop) : Prop extends Stable R where
   emit : ∀ l, Pres R (emit (ν := ν) l)
   pushFrame : ∀ fr, Pres R (pushFrame (ν := ν) fr)
   declareElement : ∀ name v c ext, Pres R (declareElement (ν := ν) name v c ext)
   setElement : ∀ name v, Pres R (setElement (ν := ν) name v)
   withScope : ∀ {α : Type} (body : M ν α), Pres R body → Pres R (withScope body)
+
+instance (R : VM ν → VM ν → Prop) [h : ScopePrims R] : ScopePrims0 R where
+  refl := h.refl
+  trans := h.trans
+  alloc s c := h.heap s _
+  stack := h.stack
+  modules := h.modules
+  emit := h.emit
+  pushFrame := h.pushFrame
+  declareElement := h.declareElement
+  setElement := h.setElement
+  withScope := h.withScope
+  setProperty := Pres.setProperty
+  builtinMethod := Pres.builtinMethod
+  reduceLHS := Pres.reduceLHS
+  evalCtorDecl := Pres.evalCtorDecl
 
 structure AllPres (R : VM ν → VM ν → Prop) (n : Nat) : Prop where
   evalExpr : ∀ e, Pres R (evalExpr (ν := ν) n e)
@@ -315,7 +382,7 @@ structure AllPres (R : VM ν → VM ν → Prop) (n : Nat) : Prop where
   evalCtorDecl : ∀ st, Pres R (evalCtorDecl (ν := ν) n st)
 
 section mutualBlock
-variable {R : VM ν → VM ν → Prop} [ScopePrims R]
+variable {R : VM ν → VM ν → Prop} [ScopePrims0 R]
 
 theorem Pres.stmtsLoop {evalOne : Stmt → M ν Addr} (h : ∀ st, Pres R (evalOne st)) :
     ∀ (l : List Stmt) (last : Option Addr), Pres R (stmtsLoop evalOne last l)
@@ -331,15 +398,11 @@ theorem Pres.reduceRHS (n : Nat) (iv : Nat × Addr × String × Int) : Pres R (r
   simp only [Model.reduceRHS]
   pres_tac
 
-theorem Pres.reduceLHS (iv : Nat × Addr × String × Int) (v : Addr) : Pres R (reduceLHS (ν := ν) iv v) := by
-  obtain ⟨k, r, nm, i⟩ := iv
-  simp only [Model.reduceLHS]
-  pres_tac
-
 macro_rules | `(tactic| pres_prim) => `(tactic| with_reducible (first
-  | apply Pres.builtinMethod | apply Pres.stmtsLoop | apply Pres.reduceRHS | apply Pres.reduceLHS
-  | apply ScopePrims.emit | apply ScopePrims.pushFrame | apply ScopePrims.declareElement
-  | apply ScopePrims.setElement | apply ScopePrims.withScope))
+  | apply Pres.stmtsLoop | apply Pres.reduceRHS
+  | apply ScopePrims0.emit | apply ScopePrims0.pushFrame | apply ScopePrims0.declareElement
+  | apply ScopePrims0.setElement | apply ScopePrims0.withScope | apply ScopePrims0.setProperty
+  | apply ScopePrims0.builtinMethod | apply ScopePrims0.reduceLHS | apply ScopePrims0.evalCtorDecl))
 
 macro "pres_ih" ih:ident : tactic => `(tactic| repeat' (first
   | assumption
